@@ -85,6 +85,7 @@ def run(chk):
     from . import rules_C08
 
     report.include_rules(chk, r2, rules_C08, ("C08.R3",), "release/destroy take the object out of the pool's books before anything that can be interrupted (closing the connection) runs")
+    report.include_rules(chk, r2, rules_C09, ("C09.R8",), "a close callback that is interrupted leaves the pool's books and its capacity intact (histories with a raising close callback)")
     report.include_rules(chk, r2, rules_C09, ("C09.R7",), "the slot must not be lost inside get(): nothing may fail or be interrupted between registering the object as used and handing it to the caller")
     r3 = chk.rule("C10.R3", "HashClient and the other wrappers hold no connection state of their own (no .sock / sendall / recv outside Client)")
     n_sites = 0
